@@ -38,16 +38,16 @@ type Violation struct {
 }
 
 type Result struct {
-	Index      int              `json:"index"`
-	ID         string           `json:"id"`
-	Verdict    string           `json:"verdict"` // held | violated | inconclusive
-	Nontrivial bool             `json:"nontrivial"`
-	Hash       string           `json:"hash"`
-	Counters   map[string]int64 `json:"counters,omitempty"`
+	Index      int                 `json:"index"`
+	ID         string              `json:"id"`
+	Verdict    string              `json:"verdict"` // held | violated | inconclusive
+	Nontrivial bool                `json:"nontrivial"`
+	Hash       string              `json:"hash"`
+	Counters   map[string]int64    `json:"counters,omitempty"`
 	Sets       map[string][]string `json:"sets,omitempty"` // distinct-value sets, unioned by the driver
-	Violations []Violation      `json:"violations,omitempty"`
-	Sample     any              `json:"sample,omitempty"`
-	Note       string           `json:"note,omitempty"`
+	Violations []Violation         `json:"violations,omitempty"`
+	Sample     any                 `json:"sample,omitempty"`
+	Note       string              `json:"note,omitempty"`
 }
 
 func (r *Result) Add(name string, n int64) {
@@ -94,14 +94,16 @@ type Property interface {
 
 // Optional interfaces.
 type Exhaustiver interface{ Exhaustive(tier string) bool }
-type CaseBudgeter interface{ CaseBudget(tier string) time.Duration }
+type CaseBudgeter interface {
+	CaseBudget(tier string) time.Duration
+}
 type Extra interface {
 	ExtraCoverage(tier string, counters map[string]int64, sets map[string]map[string]bool) map[string]any
 }
 
 var registry = map[string]Property{}
 
-func Register(p Property) { registry[p.ID()] = p }
+func Register(p Property)       { registry[p.ID()] = p }
 func Lookup(id string) Property { return registry[id] }
 func AllIDs() []string {
 	ids := []string{}
